@@ -356,6 +356,29 @@ async def restart_case(problems):
                             f"{st['A'].name}: that is the state of B's running job {tracked3.get('B')!r}")
         if st["B"] != BackendStatus.RUNNING:
             problems.append(f"restart: B (sleep 5, just started, 2 cores free) is reported {st['B']}")
+        # C07, local backend: a dependent submitted by a later invocation is held on the task id tracked for its
+        # dependency (2 cores are free, so only the dependency can hold it back), and never starts if that one is cancelled
+        C = Target(name="C", inputs=[], outputs=[], options={}, working_dir=str(d), spec="touch c_ran.txt")
+
+        def invocation_dep(port):
+            be = TrackingBackend(str(d), name="local", ops=LocalOps(str(d), "127.0.0.1", port, target_defaults={}))
+            try:
+                be.submit(C, [B])
+                return dict(be._tracked_jobs)
+            finally:
+                be.close()
+
+        tracked4 = await loop.run_in_executor(None, invocation_dep, port2)
+        await asyncio.sleep(0.3)
+        from gwf.backends.local import LocalStatus as L
+        tc, tb = tracked4.get("C"), tracked4.get("B")
+        if s2.task_states.get(tc) != L.SUBMITTED or (d / "c_ran.txt").exists():
+            problems.append(f"restart: C depends on B (task {tb}, still running): C is {s2.task_states.get(tc)} "
+                            f"{'and has run' if (d / 'c_ran.txt').exists() else ''} instead of waiting (SUBMITTED)")
+        await s2.cancel_task(tb)
+        await settle(s2, [tb, tc])
+        if s2.task_states.get(tc) == L.COMPLETED or (d / "c_ran.txt").exists():
+            problems.append(f"restart: B was cancelled, yet its dependent C ran (state {s2.task_states.get(tc)})")
         for t in list(s2.tasks):
             await s2.cancel_task(t)
         await settle(s2, list(s2.tasks))
